@@ -1,8 +1,15 @@
 (* Props/C08.v - Connections do not interfere: each behaves as if it were alone. *)
 From Coq Require Import List NArith Lia Bool String.
 From MM Require Import Lib.Bytes Model.Conn Model.Multi Proofs.MultiProofs Gen.FactsConn Gen.FactsShared.
+From MM Require Import Gen.FactsOutline.
 Import ListNotations.
 Open Scope N_scope.
+
+(* the modules this property rests on define the functions, classes, methods and class-level names they defined when the
+   model was transcribed - nothing added (an override, a new helper in the path), removed or renamed *)
+Theorem c08_module_outlines : translated_outline = true /\ outline_variables_ok = true /\ outline_session_ok = true /\ outline_connection_ok = true /\ outline_control_ok = true /\ outline_schema_ok = true /\ outline_results_ok = true /\ outline_packets_ok = true.
+Proof. repeat split; reflexivity. Qed.
+
 
 Definition B : N := conn_buffer_size.
 Definition BATCH : N := utils_batch_size.
